@@ -68,6 +68,29 @@ fn one<C: CI>(ctx: &mut Ctx, codes: &[u8], pad: usize, all_widths: bool) {
         check!(ctx, v.iter().map(|x| x.to_bits()).eq(codes.iter().rev().copied()), format!("rev_iter|{name}|content"), "{what}: owned rev_iter content wrong");
     }
 
+    // the adaptors that go through the iterator's own nth(): nth / skip / step_by / count / last / size_hint
+    if !ctx.lite || n < 6 {
+        ctx.eval();
+        let wantv: Vec<u8> = codes.to_vec();
+        for (c, d) in adaptor_laws(&|| s.iter(), &|x: C| x.to_bits(), &wantv) {
+            check!(ctx, false, format!("iter.{c}|{name}"), "{what}: iter(): {d}");
+        }
+        let wantr: Vec<u8> = codes.iter().rev().copied().collect();
+        for (c, d) in adaptor_laws(&|| s.rev_iter(), &|x: C| x.to_bits(), &wantr) {
+            check!(ctx, false, format!("rev_iter.{c}|{name}"), "{what}: rev_iter(): {d}");
+        }
+        for w in [1usize, 2, 3, n / 2 + 1, n.max(1)] {
+            let ww: Vec<Vec<u8>> = if w <= n { codes.windows(w).map(|x| x.to_vec()).collect() } else { vec![] };
+            for (c, d) in adaptor_laws(&|| s.windows(w), &|x: &SeqSlice<C>| codes_of::<C>(x), &ww) {
+                check!(ctx, false, format!("windows.{c}|{name}"), "{what}: windows({w}): {d}");
+            }
+            let wc: Vec<Vec<u8>> = codes.chunks_exact(w).map(|x| x.to_vec()).collect();
+            for (c, d) in adaptor_laws(&|| s.chunks(w), &|x: &SeqSlice<C>| codes_of::<C>(x), &wc) {
+                check!(ctx, false, format!("chunks.{c}|{name}"), "{what}: chunks({w}): {d}");
+            }
+        }
+        cell!(ctx, "{name}/adaptors/{lc}");
+    }
     // windows and chunks for every width (or a boundary selection)
     let widths: Vec<usize> = if all_widths { (1..=n + 2).collect() } else {
         let mut w = vec![1, 2, 3, n / 2, n.saturating_sub(1), n, n + 1, n + 2, per_word(a.bits), per_word(a.bits) + 1];
@@ -149,11 +172,11 @@ fn run<C: CI>(ctx: &mut Ctx) {
             if ctx.over() {
                 break;
             }
-            let n = if ctx.lite { ctx.rng.below(pw + 3) } else { ctx.rng.below(4 * pw + 3) };
+            let longs = long_lengths(a.bits);
+            let n = if ctx.lite { ctx.rng.below(pw + 3) } else if r % 10 == 9 { longs[(r / 10) % longs.len()] } else { ctx.rng.below(4 * pw + 3) };
             let codes = rand_codes(&mut ctx.rng, a, n);
             let pad = ctx.rng.below(noff);
             one::<C>(ctx, &codes, pad, false);
-            let _ = r;
         }
     });
     ctx.group(&format!("{name}/chain"), |ctx| {
@@ -186,6 +209,6 @@ fn run<C: CI>(ctx: &mut Ctx) {
 fn main() {
     run_main("C11", |ctx| {
         for_each_codec!(run, ctx);
-        ctx.note("rule", json!("per codec: slices of every length 0..12 and every word-boundary class up to 2.5 words at varying (thorough: all) bit offsets: iter / into_iter (slice and owned) / rev_iter, and windows(w), chunks(w) for EVERY w in 1..=n+2, each drained with a step bound of expected+5 next() calls and two further calls after None; random longer slices with boundary widths; chain of two slices at independent offsets incl. empty operands. Distinct = (codec, content, pad, width); all non-trivial."));
+        ctx.note("rule", json!("per codec: slices of every length 0..12 and every word-boundary class up to 2.5 words at varying (thorough: all) bit offsets: iter / into_iter (slice and owned) / rev_iter, and windows(w), chunks(w) for EVERY w in 1..=n+2, each drained with a step bound of expected+5 next() calls and two further calls after None; nth / skip / step_by (small, n, n+1 and huge arguments up to usize::MAX) / repeated nth / count / last / size_hint on iter, rev_iter, windows and chunks; random longer slices (every 10th of 4..33 machine words) with boundary widths; chain of two slices at independent offsets incl. empty operands. Distinct = (codec, content, pad, width); all non-trivial."));
     });
 }
